@@ -56,7 +56,7 @@ func c21(r *simk.Run) *simk.Violation {
 			return nil
 		}})
 		cfg, _ := json.Marshal(map[string]any{"snowvm": map[string]int{"parsedBlockCacheSize": 128, "acceptedBlockWindowCache": acceptedCache}})
-		if err := vm.Initialize(ctx, snowtest.Context(r.T, ids.Empty.Prefix(78)), nil, nil, nil, cfg, make(chan common.Message, 16), nil, nullSender{}); err != nil {
+		if err := vm.Initialize(ctx, snowtest.Context(TB(r.T), ids.Empty.Prefix(78)), nil, nil, nil, cfg, make(chan common.Message, 16), nil, nullSender{}); err != nil {
 			fail("harness", "Initialize: %v", err)
 			return
 		}
